@@ -22,7 +22,7 @@ func init() {
 		Title: "Diagnostics never disclose credentials",
 		Level: "exploration",
 		Rule: "self-composition: for every CONNECT shape (every presence subset of the 12 non-credential top-level fields x will in {absent, minimal, full}; API-built and decoded from its own frame) and every credential length in {1,2,9} (3,4,5,20,32,33,64,65,255,256,4096,65535 on the bases), the packet is instantiated with 17 kinds of content of that length for the user name (reference password), for the password (reference user name) and for both alike: all-a, all-b, the client id, the literal stars, a format-verb string, the will topic, a user-property value, two-byte runes, three-byte runes (same byte length, fewer characters), bytes 00/ff, ill-formed UTF-8 (lone lead and continuation bytes, ff only, a rune cut off at the end), control and escape characters, quotes and braces, digits, blanks. " +
-			"Dump output and String() must be identical for all 49 instances. Histories: every sequence of exactly 3 (thorough 4) calls over 17 operations (user name of 4/9/40 bytes or empty, password of 4/9 bytes or nil, client id, auth method/data, user property, will, protocol version, String+Dump, WriteTo) is run with every assignment of two credential contents (differing in every byte) to its credential-setting calls; every rendering after every step must agree with the reference run. The operations include UnmarshalBinary of a CONNECT body without and with credentials into the packet. Magic values: auth method and client id set to PLAIN, SCRAM-SHA-1 and every token-like string constant of the tree under test. Nothing else is required (dependence on emptiness and length is allowed). distinct_nontrivial = distinct (shape, length, content pair) instances rendered.",
+			"Dump output and String() must be identical for all 49 instances. Histories: every sequence of exactly 3 (thorough 4) calls over 17 operations (user name of 4/9/40 bytes or empty, password of 4/9 bytes or nil, client id, auth method/data, user property, will, protocol version, String+Dump, WriteTo) is run with every assignment of two credential contents (differing in every byte) to its credential-setting calls; every rendering after every step must agree with the reference run. The operations include UnmarshalBinary of a CONNECT body without and with credentials into the packet. Recurring credentials: a CONNECT whose client id / auth method / will topic / will payload / user property (every subset) contain the credential text, rendered with that credential and with one that occurs nowhere. Magic values: auth method and client id set to PLAIN, SCRAM-SHA-1 and every token-like string constant of the tree under test. Nothing else is required (dependence on emptiness and length is allowed). distinct_nontrivial = distinct (shape, length, content pair) instances rendered.",
 		Assumptions: []string{"only Dump and String are in scope (not %#v of the struct)", "credential contents come from 10 leak-provoking kinds; the renderer is expected to never look at content"},
 		Run:         runC18,
 		Replay:      replayC18,
@@ -258,6 +258,23 @@ func runC18(x *core.Ctx) {
 			}
 		}
 	}
+	// credentials whose bytes recur in the text of other fields (a renderer
+	// that post-processes its output by searching for the secret)
+	if x.Mine() {
+		for _, n := range []int{1, 4, 8, 9, 16, 40} {
+			for mask := 1; mask < 64; mask++ {
+				for _, wire := range []bool{false, true} {
+					n, mask, wire := n, mask, wire
+					x.Eval("recurring-credentials")
+					if f := c18Recurs(n, mask, wire); f != nil {
+						x.Report(f, func() core.Case {
+							return core.Case{Harness: "c18.recurs", Params: map[string]any{"n": n, "mask": mask, "wire": wire}}
+						}, func() *core.Finding { return c18Recurs(n, mask, wire) })
+					}
+				}
+			}
+		}
+	}
 	// histories of <= 3 (thorough 4) setter calls
 	depth := 3
 	if x.Thorough() {
@@ -455,7 +472,63 @@ func c18Token(tok string, n int) *core.Finding {
 	return nil
 }
 
+// c18Recurs: the fields selected by mask (client id, auth method, will
+// topic, will payload, user property value, user property key) contain the
+// text of credential variant 0; the packet is rendered with variant 0 and
+// with variant 1 (same length, other bytes, occurring nowhere) as user name
+// and as password.
+func c18Recurs(n, mask int, wire bool) *core.Finding {
+	secret := credVariant(n, 0)
+	embed := func(bit int, prefix string) string {
+		if mask>>uint(bit)&1 == 1 {
+			return prefix + secret + "/x"
+		}
+		return prefix + "plain/x"
+	}
+	render := func(userVar, passVar int) string {
+		resetGlobals()
+		c := mq.NewConnect()
+		c.SetClientID(embed(0, "id-"))
+		c.SetAuthMethod(embed(1, "m-"))
+		w := mq.Pub(1, embed(2, "will/"), embed(3, "gone-"))
+		c.SetWill(w)
+		c.AddUserProp(embed(5, "key-"), embed(4, "val-"))
+		c.SetUsername(credVariant(n, userVar))
+		c.SetPassword([]byte(credVariant(n, passVar)))
+		var q mq.Packet = c
+		if wire {
+			b, _, err, res := writePacket(c, 0)
+			if err != nil || res.Panic != "" {
+				return "unwritable"
+			}
+			r, rerr, res := readPacket(bytes.NewReader(b), stepBudget(len(b)))
+			if rerr != nil || res.Panic != "" || res.Budget {
+				return "unreadable"
+			}
+			q = r
+		}
+		var dump bytes.Buffer
+		var s string
+		if res := guarded(0, func() { mq.Dump(&dump, q); s = q.String() }); res.Panic != "" {
+			return "panic"
+		}
+		return dump.String() + "\x00" + s
+	}
+	ref := render(1, 1)
+	for _, v := range [][2]int{{0, 1}, {1, 0}, {0, 0}} {
+		if out := render(v[0], v[1]); out != ref && out != "panic" && ref != "panic" {
+			return &core.Finding{Class: "depends-on-credentials/recurring",
+				Detail: fmt.Sprintf("CONNECT whose other fields (mask %06b) contain the text %q: output with that text as credential (user variant %d, password variant %d) differs from the output with an equally long credential that occurs nowhere: %q vs %q", mask, secret, v[0], v[1], clip(firstDiff(out, ref), 120), clip(firstDiff(ref, out), 120))}
+		}
+	}
+	return nil
+}
+
 func replayC18(c core.Case) *core.Finding {
+	if c.Harness == "c18.recurs" {
+		w, _ := c.Params["wire"].(bool)
+		return c18Recurs(paramInt(c.Params, "n"), paramInt(c.Params, "mask"), w)
+	}
 	if c.Harness == "c18.history" {
 		return c18History(c.Choices)
 	}
